@@ -161,10 +161,17 @@ fn exec_inner(sh: &Shared, toks: &[String], go: Option<&Receiver<Vec<String>>>, 
             let msg = string_of_scalars_tok(strs[2]);
             i = 3;
             let tg = tags(&strs, &mut i, &mut fl);
-            let r = match lvl {
+            // by turns (length of the message) the call is made directly, or from inside a closure that is looking at
+            // the thread's tags (with_thread_local_log_tags): the event is the same
+            let call = move || match lvl {
                 "error" => servlin::log::error(msg, tg),
                 "info" => servlin::log::info(msg, tg),
                 _ => servlin::log::debug(msg, tg),
+            };
+            let r = if strs[2].len() % 2 == 0 {
+                call()
+            } else {
+                servlin::log::internal::with_thread_local_log_tags(|_seen| call())
             };
             show_unit(&r)
         }
